@@ -96,7 +96,7 @@ def gen_scenarios(kind, rnd, n):
         progs = [[op() for _ in range(m)] for m in shape]
         post = ["op %d find %d 1" % (now + rnd.choice([0, 2, 60]) * MS, k) for k in keys[:3]]
         out.append(dict(id="%s-s%d" % (KINDS[kind], i), kind=kind, cap=cap, ttl=ttl, tick=1, rnum=1, rk=1, now=now,
-                        universe=keys, pre=pre, progs=progs, post=post))
+                        universe=keys, pre=pre, progs=progs, post=post, unlock_yield=(i % 4 == 3 and sum(shape) <= 3)))
     return out
 
 
@@ -140,7 +140,7 @@ def targeted_scenarios(kind, method, idx):
                        "op %d insert %d 2 %d 3" % (now, 5 if kind == 6 else 0, 20 if kind != 9 else 1)][:cap]
                 post = ["op %d find %d 1" % (now + d * MS, k) for d in (2, 50) for k in (1, 2)] if kind in TTLK else []
                 out.append(dict(id="%s-t%d-%s-%d" % (KINDS[kind], idx, method, n), kind=kind, cap=cap if kind != 3 else 6, ttl=5, tick=1, rnum=1, rk=1,
-                                now=now, universe=[1, 2, 3, 4], pre=pre, progs=progs, post=post))
+                                now=now, universe=[1, 2, 3, 4], pre=pre, progs=progs, post=post, unlock_yield=(two is None)))
     return out
 
 
@@ -149,6 +149,8 @@ def write_scenarios(scs, path):
         for s in scs:
             f.write("scenario %s %d %d %d %d %d %d %d %d %s\n" % (s["id"], s["kind"], s["cap"], s["ttl"], s["tick"], s["rnum"], s["rk"],
                                                                s["now"], len(s["universe"]), " ".join(map(str, s["universe"]))))
+            if s.get("unlock_yield"):
+                f.write("unlockyield 1\n")
             for p in s["pre"]:
                 f.write("pre %s\n" % p)
             for t, prog in enumerate(s["progs"]):
